@@ -624,7 +624,10 @@ func (f *Frame) allocArr(T types.Type, hint string, st *State, zeroed bool) (arr
 func (f *Frame) makeSlice(x *ssa.MakeSlice, at string, st *State) *Val {
 	vc := f.vc
 	ln, cp := f.term(x.Len), f.term(x.Cap)
-	f.safe("makeslice", x, at, fmt.Sprintf("(and (<= 0 %s) (<= %s %s) (<= %s %s))", ln, ln, cp, cp, maxLen))
+	// a length beyond the address space is an out-of-memory condition, which is
+	// outside what is modelled (listed); negative or len > cap is a panic
+	f.safe("makeslice", x, at, fmt.Sprintf("(and (<= 0 %s) (<= %s %s))", ln, ln, cp))
+	vc.assume(at, "(<= "+cp+" "+maxLen+")", "make: capacity is bounded by the address space")
 	E := x.Type().Underlying().(*types.Slice).Elem()
 	_ = E
 	arr, _ := f.allocArr(x.Type(), x.Name(), st, true)
